@@ -22,6 +22,7 @@ func init() {
 			g20AliasInjective(c)
 			g14ReservedBeforeNaming(c)
 			g25FieldRendering(c.Repo, c.Rep)
+			g33SpellableCastType(c.Repo, c.Rep)
 			g27ProgressMeasure(c.Repo, c.Rep)
 			g15StringCuts(c.Repo, c.Rep)
 			g30GeneratorStateless(c.Repo, c.Rep)
